@@ -77,6 +77,7 @@ def shapes(tier, seed):
                     if n is not None:
                         pp.append(n)
     out += [{"kind": "processed", "processed": pp[i:i + 12]} for i in range(0, len(pp), 12)]
+    out.append({"kind": "twin-engines"})
     return out
 
 
@@ -215,6 +216,8 @@ def run_shape(shape, tier):
     if shape["kind"] == "processed":
         from . import c03
         return c03.run_processed_shape(shape)
+    if shape["kind"] == "twin-engines":
+        return run_twin_engines()
     tot = {"paths": 0, "queries": 0, "solver_s": 0.0, "obligations": 0, "discharged": 0, "inconclusive": 0}
     functions = set()
     vios = []
@@ -297,6 +300,52 @@ def run_shape(shape, tier):
     return out
 
 
+def twin_engine_problems():
+    """Distinct engine objects that share a name (the default for engines created without one) are different engines:
+    transfers between them are real transfers and end in the requested engine object."""
+    from lsst.daf.relation import ColumnExpression, Materialization, Transfer, iteration
+    from ..prog import Tag
+
+    a = Tag("a")
+    first, second, third = iteration.Engine(), iteration.Engine(), iteration.Engine(name="third")
+    leaf = first.make_leaf({a}, iteration.RowSequence([{a: 1}, {a: 2}]), name="L")
+    p = ColumnExpression.reference(a).gt(ColumnExpression.literal(0))
+    problems = []
+
+    def chk(label, rel, engine, must_hold=None, must_not_be=None):
+        if rel.engine is not engine:
+            problems.append(f"{label}: result lives in another engine object than the requested one")
+        if must_hold is not None and count_nodes(rel, must_hold) == 0:
+            problems.append(f"{label}: no {must_hold.__name__} node in {rel}")
+        if must_not_be is not None and rel is must_not_be:
+            problems.append(f"{label}: returned the untransferred relation itself")
+
+    moved = leaf.transferred_to(second)
+    chk("leaf.transferred_to(second)", moved, second, Transfer, leaf)
+    chk("leaf.transferred_to(third).transferred_to(second)", leaf.transferred_to(third).transferred_to(second), second, Transfer, leaf)
+    chk("moved.materialized('m')", moved.materialized("m"), second, Materialization)
+    chk("selection preferring second, transfer=True", leaf.with_rows_satisfying(p, preferred_engine=second, transfer=True), second, Transfer)
+    if moved.transferred_to(first) is not leaf:
+        problems.append("round trip first -> second -> first does not return the leaf")
+    if leaf.transferred_to(first) is not leaf:
+        problems.append("transfer to the own engine does not return the relation itself")
+    return problems
+
+
+def run_twin_engines():
+    problems = twin_engine_problems()
+    out = {"paths": 1, "queries": 0, "solver_s": 0.0, "obligations": 6, "discharged": 6 - min(6, len(problems)), "inconclusive": 0,
+           "functions": ["_engine.py:Engine.transfer", "_transfer.py:Transfer.simplify", "_engine.py:Engine.materialize"],
+           "shape": "twin-engines: two iteration engines with the default name", "sample": {"kind": "twin-engines", "problems": problems[:3]}}
+    if problems:
+        out["status"] = VIOLATION
+        out["violations"] = [{"site": "twin-engines/" + problems[0].split(":")[0][:60], "summary": "; ".join(problems)[:300],
+                              "replay": {"kind": "twin-engines", "base": None, "prog": None}}]
+    else:
+        out["status"] = HOLDS
+    return out
+
+
 def concrete_check(kind, base, prog, rows, bind):
     from lsst.daf.relation import ColumnError, EngineError, RelationalAlgebraError
 
@@ -354,6 +403,9 @@ def replay(v):
     if r.get("processed"):
         from . import c03
         return c03.replay(v)
+    if r.get("kind") == "twin-engines":
+        problems = twin_engine_problems()
+        return bool(problems), "; ".join(problems)[:300] or "same-name engines behave as distinct engines"
     base = from_jsonable(r["base"]) if r["base"] is not None else None
     prog = from_jsonable(r["prog"])
     if base is not None:
